@@ -357,6 +357,17 @@ func (c *clientImpl) doMultiShardGet(key string, options *getOptions, ch chan Ge
 	}
 }
 
+// sendListResult hands a result over to the consumer of the List channel. It gives up when the context is done:
+// the consumer may have stopped reading, and the channel must not be closed while a send is still possible.
+func sendListResult(ctx context.Context, ch chan<- ListResult, result ListResult) bool {
+	select {
+	case ch <- result:
+		return true
+	case <-ctx.Done():
+		return false
+	}
+}
+
 func (c *clientImpl) listFromShard(ctx context.Context, minKeyInclusive string, maxKeyExclusive string, shardId int64, secondaryIndexName *string,
 	ch chan<- ListResult) {
 	request := &proto.ListRequest{
@@ -368,7 +379,7 @@ func (c *clientImpl) listFromShard(ctx context.Context, minKeyInclusive string, 
 
 	client, err := c.executor.ExecuteList(ctx, request)
 	if err != nil {
-		ch <- ListResult{Err: err}
+		sendListResult(ctx, ch, ListResult{Err: err})
 		return
 	}
 
@@ -379,11 +390,13 @@ func (c *clientImpl) listFromShard(ctx context.Context, minKeyInclusive string, 
 				return
 			}
 
-			ch <- ListResult{Err: err}
+			sendListResult(ctx, ch, ListResult{Err: err})
 			return
 		}
 
-		ch <- ListResult{Keys: response.Keys}
+		if !sendListResult(ctx, ch, ListResult{Keys: response.Keys}) {
+			return
+		}
 	}
 }
 
@@ -413,7 +426,9 @@ func (c *clientImpl) List(ctx context.Context, minKeyInclusive string, maxKeyExc
 		}
 
 		go func() {
-			_ = wg.Wait(ctx)
+			// Close the channel only after every shard goroutine has returned (they all stop when ctx is done):
+			// closing it earlier would make their pending sends panic
+			_ = wg.Wait(context.Background())
 			close(ch)
 		}()
 	}
